@@ -74,7 +74,8 @@ def _run_ops(h, model, out, after_op):
         method = "max"
         try:
             if op[0] == "fit":
-                model.fit(h.X.copy(), h.y.copy(), quiet=True, refit=op[1])
+                # refit None = the keyword is not passed (documented default: True)
+                model.fit(h.X.copy(), h.y.copy(), quiet=True, **({} if op[1] is None else {"refit": op[1]}))
             elif op[0] == "upd":
                 _, n, thr, xy, method = op
                 kw = {}
@@ -83,7 +84,7 @@ def _run_ops(h, model, out, after_op):
                 model.update_sensors(n_sensors=n, threshold=thr, xy=(h.X.copy(), h.y.copy()) if xy else None, quiet=True, **kw)
             elif op[0] == "updm":
                 _, k, refit = op
-                model.update_n_basis_modes(k, (h.X.copy(), h.y.copy()), quiet=True, refit=refit)
+                model.update_n_basis_modes(k, (h.X.copy(), h.y.copy()), quiet=True, **({} if refit is None else {"refit": refit}))
             status = "ok"
         except Exception as e:
             status = "E:" + err_kind(e)
@@ -120,6 +121,7 @@ def to_request(h: SHistory, real_out):
             mag, nf = obs["mag"], len(obs["mag"])
         if op[0] in ("fit", "updm"):
             refit = op[1] if op[0] == "fit" else op[2]
+            refit = True if refit is None else refit
             coef = obs.get("coef")
             if coef is None:
                 dsel = []
